@@ -1,11 +1,16 @@
-GO_PKG = "."
-GO_PKGNAME = "dht"
-HARNESS = ["dht/c10_test.go"]
-GO_TEST = "TestVerifC10"
+# two runs: single RPCs / one response inside a lookup / the real sender (c10_test.go), and - for "no response can
+# permanently block the requesting node" at the level of whole operations - the nine routing operations of the C03
+# harness on networks of answering, failing, silent and late peers (same cases, judged by Run_C03: an operation that
+# does not return, panics or leaves its channel open is a failure there)
+GO_RUNS = [
+    {"pkg": ".", "pkgname": "dht", "test": "TestVerifC10", "share": 0.75, "harness": ["dht/c10_test.go"]},
+    {"pkg": ".", "pkgname": "dht", "test": "TestVerifC03", "share": 0.25,
+     "harness": ["dht/sim_test.go", "dht/lookup_test.go", "dht/world_test.go", "dht/c03_test.go"]},
+]
 RUN_MODULE = "Run_C10"
-COQ_TARGETS = ["Corr/Run_C10.vo", "Proofs/ClientRpcProofs.vo", "Proofs/PeerRecordProofs.vo"]
-N = {"quick": 450, "thorough": 5000}
-RULE = ("(a) the abstract response domain instantiated to concrete protobuf messages - per ProtocolMessenger method: sender error, nil message, "
+COQ_TARGETS = ["Corr/Run_C10.vo", "Corr/Run_C03.vo", "Proofs/ClientRpcProofs.vo", "Proofs/PeerRecordProofs.vo"]
+N = {"quick": 600, "thorough": 6700}
+RULE = ("second run (a quarter of the cases): the whole routing operations of the C03 harness. First run: (a) the abstract response domain instantiated to concrete protobuf messages - per ProtocolMessenger method: sender error, nil message, "
         "7 record shapes (absent / matching / other value / other key / empty / key only / random) x 20 closer-peer list shapes built from 16 "
         "peer-record shapes (no address, empty id, undecodable only, mixed, exactly at / one under / one over the 8 KiB limit with 1-byte and "
         "10-byte connection values, overflow in the middle, single oversized address, id over the limit, 230+ small addresses, nil entry) "
